@@ -10,7 +10,7 @@ import random
 from .. import families as F
 from ..pipeline import run_family
 
-NAMES = ["x", "y", "error"]
+NAMES = ["x", "y", "macroname", "error"]
 INVS = ["WellBracketed", "LeaveRestores", "SeparatorCount"]
 
 
